@@ -50,16 +50,21 @@ type IdPConfig struct {
 	// endpoint name -> spec; names: metadata certificate callback sso slo attribute; absent = default
 	Endpoints map[string]EndpointSpec `json:"endpoints,omitempty"`
 
-	WantAuthRequestsSigned string       `json:"want_authn_requests_signed,omitempty"`
-	SignatureAlgorithm     string       `json:"signature_algorithm"`
-	MetadataSigAlg         string       `json:"metadata_signature_algorithm,omitempty"`
-	EncryptionAlgorithm    string       `json:"encryption_algorithm,omitempty"`
-	Organisation           *OrgSpec     `json:"organisation,omitempty"`
-	Contact                *ContactSpec `json:"contact,omitempty"`
-	ValidUntilSec          int          `json:"valid_until_sec,omitempty"`
-	CacheDuration          string       `json:"cache_duration,omitempty"`
-	ErrorURL               string       `json:"error_url,omitempty"`
-	TimeFormat             string       `json:"time_format,omitempty"`
+	WantAuthRequestsSigned string `json:"want_authn_requests_signed,omitempty"`
+	SignatureAlgorithm     string `json:"signature_algorithm"`
+	MetadataSigAlg         string `json:"metadata_signature_algorithm,omitempty"`
+	EncryptionAlgorithm    string `json:"encryption_algorithm,omitempty"`
+	// InterceptorIssuer, when set: the provider is built with WithHttpInterceptors and the interceptor overrides the issuer in
+	// the request context with this value (an application that resolves tenants itself); InterceptorNeutral: an interceptor
+	// that only adds an unrelated context value and a response header
+	InterceptorIssuer  string       `json:"interceptor_issuer,omitempty"`
+	InterceptorNeutral bool         `json:"interceptor_neutral,omitempty"`
+	Organisation       *OrgSpec     `json:"organisation,omitempty"`
+	Contact            *ContactSpec `json:"contact,omitempty"`
+	ValidUntilSec      int          `json:"valid_until_sec,omitempty"`
+	CacheDuration      string       `json:"cache_duration,omitempty"`
+	ErrorURL           string       `json:"error_url,omitempty"`
+	TimeFormat         string       `json:"time_format,omitempty"`
 }
 
 // DefaultIdP is the plain configuration most checks start from.
@@ -260,6 +265,9 @@ func (c IdPConfig) Route(name string) string {
 // ExpectedIssuer is the issuer string in effect for a request host (model of C19's derivation
 // for well-formed configurations: static issuer, or scheme + host + path).
 func (c IdPConfig) ExpectedIssuer(host string) string {
+	if c.InterceptorIssuer != "" {
+		return c.InterceptorIssuer // an application interceptor puts this issuer into the context of every request
+	}
 	if c.IssuerMode == "static" {
 		return c.Issuer
 	}
